@@ -516,6 +516,7 @@ def coupled_systems(
     operator_jacobians: bool = False,
     input_scales: bool = False,
     acyclic: bool = False,
+    more_self_coupled: bool = False,
     q_range: tuple[float, float] = (0.05, 0.3),
     max_size: int = 3,
 ):
@@ -537,6 +538,7 @@ def coupled_systems(
         operator_jacobians: allow disciplines whose partial Jacobians are matrix-free JacobianOperator's.
         input_scales: allow design inputs whose whole effect is scaled by 1e-10 or 1e-13 (badly scaled unit).
         acyclic: feed-forward system: weakly coupled disciplines only, no cycle, no self-coupling.
+        more_self_coupled: self-coupled disciplines one time in two instead of one in four / six.
     """
     n = draw(st.integers(min_disc, max_disc))
     if all_strong is None:
@@ -579,7 +581,7 @@ def coupled_systems(
                 for j in g:
                     if i != j and draw(st.integers(0, 3)) == 0:
                         reads[i].add(j)
-        elif not acyclic and draw(st.integers(0, 3)) == 0:
+        elif not acyclic and draw(st.integers(0, 3)) <= (1 if more_self_coupled else 0):
             reads[g[0]].add(g[0])  # self-coupled singleton
     for i in range(n):
         for j in range(n):
@@ -587,7 +589,7 @@ def coupled_systems(
                 reads[i].add(j)
     if not any(reads.values()):
         reads[n - 1].add(0)  # a coupled system has at least one coupling variable
-    if all_strong and n >= 2 and draw(st.integers(0, 5)) == 0:
+    if all_strong and n >= 2 and draw(st.integers(0, 5)) <= (2 if more_self_coupled else 0):
         i = draw(st.integers(0, n - 1))
         reads[i].add(i)  # self-coupling inside a ring
     discs = []
@@ -619,7 +621,7 @@ def coupled_systems(
                 if draw(st.booleans()) or not glin:
                     glin[name] = _block(draw, sz, all_sizes[name])
             outputs.append({"name": "g" + names[i][1:], "size": sz, "c": [draw(_COEF) for _ in range(sz)], "lin": glin})
-        formats = ["dense", "dense", "sparse"] + (["operator", "operator"] if operator_jacobians else [])
+        formats = ["dense", "dense", "sparse"] if not operator_jacobians else ["dense", "sparse", "sparse", "operator", "operator"]
         disc = {"name": f"D{i}", "jac": draw(st.sampled_from(formats)), "outputs": outputs}
         if state_form and i not in reads[i] and draw(st.integers(0, 2)) == 0:
             disc["state"] = [draw(st.sampled_from([1, 2, -1, 3])) for _ in range(sizes[i])]
